@@ -8,12 +8,14 @@ CONSTANTS
     Schedules = {}
     Base = 0
     SpanLens = {}
-    DBRPs = {}
+    DBRPs <- MCDBRPs
+    DefaultRPs <- MCDefaultRPs
     ChildLists = {}
     WrapUser = TRUE
     TruncNext = TRUE
     CloneSharesGB = TRUE
     FluxEndsCollection = FALSE
+    ResolveEmptyRP = FALSE
 INVARIANTS
     RangeIsExact
     CloneFindsLiterals
